@@ -50,6 +50,11 @@ package taskctl
 //@ func checkStageCondition
 //@   trusted runs an external command (os/exec); no access to scheduler state
 //@   modifies nothing
+// Every store of a stage status made by the scheduling loop and by checkStatus is counted ($statusStores, incremented by
+// the contract of Stage.UpdateStatus) and has to be accounted for ($statusJustified) at an anchored assertion that says
+// why this stage gets this status: a stage status is never changed for any other reason.
+//@ ghost $statusStores scalar Int
+//@ ghost $statusJustified scalar Int
 //@ func (*Scheduler).runStage
 //@   trusted runs the task through the injected runner.Runner (or a nested pipeline); it only writes the task's Env/Variables
 //@   modifies task.Task.Env, task.Task.Variables
@@ -69,6 +74,15 @@ package taskctl
 //@   ensures  [returned] $scheduleReturned
 //@   modifies $scheduleReturned, $clock
 //@   at after checkStatus#1: ghost $lastReady := ready
+//@   at call UpdateStatus#1: assert [C08.conditionOnly] status == scheduler.StatusWaiting && stage.Condition != ""
+//@   at call UpdateStatus#1: ghost $statusJustified := $statusJustified + 1
+//@   at call UpdateStatus#2: assert [C08.runOnlyReady] status == scheduler.StatusWaiting && $lastReady
+//@   at call UpdateStatus#2: ghost $statusJustified := $statusJustified + 1
+//@   at call UpdateStatus#3: assert [C08.conditionOnly] status == scheduler.StatusWaiting && stage.Condition != ""
+//@   at call UpdateStatus#3: ghost $statusJustified := $statusJustified + 1
+//@   loop 1 invariant [C08.statusAccounted] $statusStores == $statusJustified
+//@   loop 2 invariant [C08.statusAccounted] $statusStores == $statusJustified
+//@   assumes  [ghostInit2] $statusStores == $statusJustified
 //@   at go (*Scheduler).Schedule$1#1: assert [C02.launchGuard] status == scheduler.StatusWaiting && $lastReady && stage.Status == scheduler.StatusRunning
 //@   at go (*Scheduler).Schedule$1#1: assert [C04.notAfterCancel] $selfCancel || s.cancelled != 1
 //@   at call (*Scheduler).Cancel#1: ghost $selfCancel := true
@@ -104,7 +118,13 @@ package taskctl
 //@   ensures  [C02.readyUntouched] ready ==> same(scheduler.Stage.Status)
 //@   ensures  [C08.cancelDependents] (exists i :: 0 <= i && i < len(graphTo(p, stage.Name)) && depBad(dep(p, stage, i))) ==> !ready && stage.Status == scheduler.StatusCanceled
 //@   ensures  [C08.onlyOwnStatus] sameExcept(scheduler.Stage.Status, stage) && (stage.Status == old(stage.Status) || stage.Status == scheduler.StatusCanceled)
-//@   modifies scheduler.Stage.Status@[stage]
+//@   ensures  [C08.statusAccounted] $statusStores - old($statusStores) == $statusJustified - old($statusJustified)
+//@   at call UpdateStatus#1: assert [C08.cancelOnlyIfBad] depBad(depStage)
+//@   at call UpdateStatus#1: ghost $statusJustified := $statusJustified + 1
+//@   at call UpdateStatus#2: assert [C08.cancelOnlyIfBad] depBad(depStage)
+//@   at call UpdateStatus#2: ghost $statusJustified := $statusJustified + 1
+//@   loop 1 invariant [C08.statusAccounted] $statusStores - old($statusStores) == $statusJustified - old($statusJustified)
+//@   modifies scheduler.Stage.Status@[stage], $statusStores, $statusJustified
 //@   loop 1 invariant [bounds] 0 <= $i + 1 && $i + 1 <= len(graphTo(p, stage.Name)) && sameExcept(scheduler.Stage.Status, stage) && (stage.Status == old(stage.Status) || stage.Status == scheduler.StatusCanceled)
 //@   loop 1 invariant [ready] ready ==> same(scheduler.Stage.Status) && forall k :: 0 <= k && k <= $i ==> depOK(dep(p, stage, k))
 //@   loop 1 invariant [bad] forall k :: 0 <= k && k <= $i && depBad(dep(p, stage, k)) ==> !ready && stage.Status == scheduler.StatusCanceled
@@ -116,7 +136,7 @@ package taskctl
 //@   at call Cancel#1: assert [C04.flagFirst] s.cancelled == 1
 //@   ensures  [C04.flag] s.cancelled == 1
 
-//@ property C08: taskctl.checkStatus/*
+//@ property C08: taskctl.(*Scheduler).Schedule/assert[C08.*] taskctl.(*Scheduler).Schedule/loop*/inv-*[C08.*] taskctl.checkStatus/*
 //@ property C02: taskctl.checkStatus/ensures[C02.*] taskctl.checkStatus/loop* taskctl.(*Scheduler).Schedule/assert[C02.*] taskctl.(*Scheduler).Schedule/loop*
 //@ property C04: taskctl.(*Scheduler).Schedule/assert[C04.*] taskctl.(*Scheduler).Schedule/loop* taskctl.(*Scheduler).Cancel/* taskctl.(*Scheduler).Canceled/ensures*
 //@ property C01: taskctl.(*Scheduler).Schedule/assert[C01.*]
